@@ -24,13 +24,19 @@ package scen
 //     model operation, checked by porcupine. After a crash cut, a torn write
 //     or an injected I/O error the drain may fail, else the fresh queue must be
 //     well-formed and hold only keys that were persisted (direct checks).
+//   * c19_restore.go: queues of many regions (bulk block, size classes), read
+//     faults in the middle of a drain (broken result stream, torn entry) and
+//     the rules that need no model state (dequeue-without-keys,
+//     key-handed-out-twice, final-queue-incoherent, final-restart-differs):
+//     they keep judging the queue while the model is in "havoc".
 //
 // Unconstrained corners (documentation silent, model accepts either / they are
 // not generated): Enqueue with no keys; order of keys inside a returned slice;
 // nil vs empty slices; the prefix ReprovideQueue.Dequeue returns together with
 // false; Persist with batchSize < 1; keys that do not match the prefix they
 // are enqueued under (precondition); what an additive DrainDatastore that
-// FAILED added to the queue (anything is accepted until the next Clear); what
+// FAILED added to the queue (the MODEL accepts anything until the next Clear;
+// the queue must still be a queue: the state-free rules of c19_restore.go); what
 // the datastore holds after a Persist that FAILED. Positions used by an
 // additive DrainDatastore are taken to be those of Enqueue applied to the
 // persisted entries in persisted order ("adds them to the current queue").
@@ -59,16 +65,25 @@ import (
 func init() {
 	real := []string{"provider/internal/queue.ProvideQueue (Enqueue/Dequeue/DequeueMatching/Remove/Clear/Size/IsEmpty/NumRegions/Persist/DrainDatastore)", "provider/internal/queue.prefixQueue", "provider/internal/keyspace trie helpers", "go-libdht trie"}
 	stub := []string{"datastore (simds: every operation parks in the scheduler; journal, crash forks)", "lock hand-over (instrumented sync.Mutex calls, scheduler-owned)"}
+	var big []string
+	if c19Thorough() {
+		big = []string{"probe_persist_regions_over_255", "probe_restart_strict_regions_over_255", "probe_final_restart_regions_over_255"}
+	}
 	sim.Register(&sim.Scenario{Prop: "C19", Name: "provide-queue", Weight: 4, Run: func(s *sim.Sim) { runC19Provide(s, true, false) },
 		Real: real, Stub: stub,
-		Faults: []string{"lock_contended", "fault_crash_cut", "probe_superstring_consolidation", "probe_consolidation_multi", "probe_consolidation_nonadjacent", "probe_enqueue_covered", "probe_enqueue_existing",
+		Faults: append(big, "lock_contended", "fault_crash_cut", "probe_superstring_consolidation", "probe_consolidation_multi", "probe_consolidation_nonadjacent", "probe_enqueue_covered", "probe_enqueue_existing",
 			"probe_dequeue_matching_partial", "probe_dequeue_matching_multi", "probe_remove_last_key", "probe_persist_contended", "probe_crash_cut_in_batch",
 			"probe_crash_cut_in_persist", "probe_restart_torn_writer", "probe_restart_strict", "probe_restart_relaxed", "probe_empty_prefix_used", "probe_empty_prefix_persisted",
-			"probe_drain_additive_merge", "probe_persist_multi_batch", "probe_lin_checked"},
+			"probe_drain_additive_merge", "probe_persist_multi_batch", "probe_lin_checked",
+			"probe_persist_regions_over_10", "probe_persist_regions_over_16", "probe_persist_regions_over_40", "probe_persist_regions_over_100",
+			"probe_restart_strict_regions_over_10", "probe_restart_strict_regions_over_16", "probe_restart_strict_regions_over_40",
+			"probe_final_phase_checked", "probe_final_restart_compared", "probe_final_restart_regions_over_16", "probe_key_dequeued_again"),
 	})
 	sim.Register(&sim.Scenario{Prop: "C19", Name: "provide-queue-ds-errors", Weight: 2, Run: func(s *sim.Sim) { runC19Provide(s, true, true) },
 		Real: real, Stub: append([]string{"datastore error injection (single failures, partial commits)"}, stub...),
-		Faults: []string{"fault_ds_error_query", "fault_ds_error_batch", "fault_ds_error_commit", "fault_ds_partial_commit", "probe_drain_after_error", "probe_persist_failed", "probe_drain_failed", "probe_restart_drain_failed"},
+		Faults: []string{"fault_ds_error_query", "fault_ds_error_batch", "fault_ds_error_commit", "fault_ds_partial_commit", "probe_drain_after_error", "probe_persist_failed", "probe_drain_failed", "probe_restart_drain_failed",
+			"fault_ds_query_breaks_midstream", "fault_ds_torn_entry", "probe_drain_stream_broke_after_some", "probe_drain_torn_entry_not_first",
+			"probe_restart_drain_failed_midway", "probe_live_drain_failed_midway", "probe_dequeue_after_failed_drain"},
 	})
 	sim.Register(&sim.Scenario{Prop: "C19", Name: "provide-queue-model", Weight: 2, Run: func(s *sim.Sim) { runC19Provide(s, false, false) },
 		Real: real[:1], Stub: stub[1:],
@@ -100,7 +115,7 @@ var (
 func c19GetPool() *c19Pool {
 	c19PoolOnce.Do(func() {
 		p := &c19Pool{idOf: map[string]int{}}
-		for i := 0; i < 256; i++ {
+		for i := 0; i < c19PoolSize; i++ {
 			h, err := mh.Sum([]byte(fmt.Sprintf("key-%d", i)), mh.SHA2_256, -1)
 			if err != nil {
 				panic(err)
@@ -119,14 +134,14 @@ func c19GetPool() *c19Pool {
 	return c19ThePool
 }
 
-func (p *c19Pool) bitsOf(id uint8) string { return p.bits[id] }
+func (p *c19Pool) bitsOf(id c19ID) string { return p.bits[id] }
 
 // under returns the ids of the pool keys under a prefix, ascending.
-func (p *c19Pool) under(prefix string) []uint8 {
-	var out []uint8
+func (p *c19Pool) under(prefix string) []c19ID {
+	var out []c19ID
 	for i, b := range p.bits {
 		if strings.HasPrefix(b, prefix) {
-			out = append(out, uint8(i))
+			out = append(out, c19ID(i))
 		}
 	}
 	return out
@@ -142,7 +157,7 @@ type c19Op struct {
 	kind     string
 	prefix   string
 	prefixes []string // reprovide enqueue
-	keys     []uint8
+	keys     []c19ID
 	batch    int
 	cutMode  int // restart: 0 clean, 1 crash cut inside the latest persist, 2 crash cut anywhere
 	cutFrac  int
@@ -152,7 +167,7 @@ type c19Op struct {
 	started, done, seen bool
 	call, ret           int64
 	outPrefix           string
-	outKeys             []uint8
+	outKeys             []c19ID
 	outOK               bool
 	outN                int
 	outBool             bool
@@ -171,12 +186,24 @@ type c19Op struct {
 	cutInPersist        bool
 	torn                bool
 	multiBatch          bool
+	bulk                bool // one of the enqueues of the bulk block (many disjoint regions)
+	// read faults (c19_restore.go), decided by the scheduler while the
+	// operation's query is parked
+	midFail    int  // n+1: the result stream of its query breaks after n entries (0: it does not)
+	midFired   bool // ... and it did
+	corrupt    bool // the datastore it reads holds an entry whose value was torn (truncated)
+	tornAt     int  // i+1: the entry at index i (key order) was torn under this operation (0: none)
+	nRead      int  // entries in the datastore when its query was answered
+	dumpRegs   int  // restart: NumRegions of the fresh queue before it was emptied
+	dumpEmpty  bool // restart: IsEmpty of the fresh queue before it was emptied
+	dumpCapped bool // restart: the fresh queue did not run empty within the bound
 	// filled by the sequential replay
-	stKeys  []uint8
-	stKnown bool
+	stKeys    []c19ID
+	stKnown   bool
+	stRegions int // persist: regions in the model queue when it ran (-1 unknown)
 }
 
-func c19Keys(ks []uint8) string {
+func c19Keys(ks []c19ID) string {
 	var b strings.Builder
 	for i, k := range ks {
 		if i > 0 {
@@ -193,6 +220,10 @@ func c19Ents(es []c19Ent) string {
 	for i, e := range es {
 		if i > 0 {
 			b.WriteByte(' ')
+		}
+		if i >= 48 {
+			fmt.Fprintf(&b, "… %d more", len(es)-i)
+			break
 		}
 		fmt.Fprintf(&b, "%q{%s}", e.P, c19Keys(e.K))
 	}
@@ -264,13 +295,18 @@ type c19H struct {
 	overlaps       int // pairs of operations of the history that overlap in time
 	namespaced     bool
 	clients        opSet
+	// liveCorrupt: the live datastore holds an entry torn by the scheduler; it
+	// stays there until a Persist (which wipes everything first) returns nil
+	liveCorrupt     bool
+	everLiveCorrupt bool
+	maxRegions      int // bound on the number of regions a queue of this run can hold
 }
 
 // ids converts returned multihashes to sorted pool ids; multihashes that are
 // not pool keys and repeated multihashes are noted on the operation.
-func (h *c19H) ids(o *c19Op, hs []mh.Multihash) []uint8 {
+func (h *c19H) ids(o *c19Op, hs []mh.Multihash) []c19ID {
 	seen := map[int]bool{}
-	out := make([]uint8, 0, len(hs))
+	out := make([]c19ID, 0, len(hs))
 	for _, x := range hs {
 		id, ok := h.pool.idOf[string(x)]
 		if !ok {
@@ -282,7 +318,7 @@ func (h *c19H) ids(o *c19Op, hs []mh.Multihash) []uint8 {
 			continue
 		}
 		seen[id] = true
-		out = append(out, uint8(id))
+		out = append(out, c19ID(id))
 	}
 	sort.Slice(out, func(i, j int) bool { return out[i] < out[j] })
 	return out
@@ -291,14 +327,20 @@ func (h *c19H) ids(o *c19Op, hs []mh.Multihash) []uint8 {
 // wrap hands the datastore to the queue the way provider.New does (a
 // namespace wrapper over the node's datastore) or bare (as the package's own
 // tests do); the choice is drawn per run.
-func (h *c19H) wrap(d *simds.DS) ds.Batching {
+func (h *c19H) wrap(o *c19Op, d *simds.DS) ds.Batching {
+	var out ds.Batching = d
 	if h.namespaced {
-		return namespace.Wrap(d, ds.NewKey("pqueue"))
+		out = namespace.Wrap(d, ds.NewKey("pqueue"))
 	}
-	return d
+	if h.faults {
+		// outermost: what the queue reads is the stream of the datastore it was
+		// given, which may break in the middle (c19_restore.go)
+		out = &c19BreakingDS{Batching: out, o: o}
+	}
+	return out
 }
 
-func (h *c19H) mhs(ids []uint8) []mh.Multihash {
+func (h *c19H) mhs(ids []c19ID) []mh.Multihash {
 	out := make([]mh.Multihash, len(ids))
 	for i, id := range ids {
 		out[i] = h.pool.mh[id]
@@ -347,8 +389,11 @@ func (h *c19H) exec(o *c19Op) {
 	case "empty":
 		o.outBool = h.pq.IsEmpty()
 	case "persist":
-		err := h.pq.Persist(ctx, h.wrap(h.d), o.batch)
+		err := h.pq.Persist(ctx, h.wrap(o, h.d), o.batch)
 		o.errStr = c19ErrString(err)
+		if err == nil {
+			h.liveCorrupt = false // "remove all existing persisted entries first"
+		}
 		j := h.d.JournalLen()
 		h.lastJ0, h.lastJ1 = h.jClean, j
 		h.jClean = j
@@ -361,7 +406,7 @@ func (h *c19H) exec(o *c19Op) {
 		}
 		o.multiBatch = len(nb) > 1
 	case "drain":
-		err := h.pq.DrainDatastore(ctx, h.wrap(h.d))
+		err := h.pq.DrainDatastore(ctx, h.wrap(o, h.d))
 		o.errStr = c19ErrString(err)
 		o.dsLeft = len(h.d.Snapshot())
 		h.jClean = h.d.JournalLen()
@@ -398,6 +443,11 @@ func (h *c19H) exec(o *c19Op) {
 		case o.torn:
 			o.dirty, o.why = true, "writer half-way"
 		}
+		if h.liveCorrupt || cut >= 0 && h.everLiveCorrupt {
+			// the torn entry is journaled as durable: a crash cut in front of the
+			// Persist that wiped it brings it back
+			o.corrupt, o.faulted = true, true
+		}
 		fork := h.d.Fork(cut, "f"+o.tag)
 		if !o.parkFork {
 			fork.ParkOp = nil
@@ -406,11 +456,13 @@ func (h *c19H) exec(o *c19Op) {
 		h.byFork[fork] = o
 		h.forks = append(h.forks, fork)
 		q2 := verifqueue.NewProvideQueue()
-		o.errStr = c19ErrString(q2.DrainDatastore(ctx, h.wrap(fork)))
-		o.dumpSize = q2.Size()
-		for i := 0; i < 400; i++ {
+		o.errStr = c19ErrString(q2.DrainDatastore(ctx, h.wrap(o, fork)))
+		o.dumpSize, o.dumpRegs, o.dumpEmpty = q2.Size(), q2.NumRegions(), q2.IsEmpty()
+		o.dumpCapped = true
+		for i := 0; i < 2*h.maxRegions+8; i++ {
 			p, ks, ok := q2.Dequeue()
 			if !ok {
+				o.dumpCapped = false
 				break
 			}
 			o.dump = append(o.dump, c19Ent{P: string(p), K: h.ids(o, ks)})
@@ -491,8 +543,8 @@ func (h *c19H) owner(p *sim.Parked) *c19Op {
 
 // enqueuedBefore returns the set of keys handed to Enqueue by calls started
 // before stamp.
-func (h *c19H) enqueuedBefore(stamp int64) map[uint8]bool {
-	out := map[uint8]bool{}
+func (h *c19H) enqueuedBefore(stamp int64) map[c19ID]bool {
+	out := map[c19ID]bool{}
 	for _, e := range h.ops {
 		if e.kind == "enq" && e.started && e.call < stamp {
 			for _, k := range e.keys {
@@ -514,6 +566,10 @@ func (h *c19H) observe() {
 		if o.kind == "restart" && o.faulted && o.errStr != "" {
 			o.dirty, o.why = true, "injected I/O error during the drain"
 		}
+		if o.kind == "restart" && o.corrupt && !o.dirty {
+			o.dirty, o.why = true, "torn entry in the datastore"
+		}
+		h.readFaultProbes(o)
 		s.Tracef("done %s %s", o.tag, o.String())
 		if o.panicMsg != "" {
 			s.Violate("op-panic", "%s panicked on the caller's goroutine: %s", o.kind, o.panicMsg)
@@ -528,6 +584,10 @@ func (h *c19H) observe() {
 			want := o.prefix
 			if o.kind == "deq" {
 				want = o.outPrefix
+			}
+			if o.kind == "deq" && o.outOK && len(o.outKeys) == 0 {
+				// holds in every state of the queue, known to the model or not
+				s.Violate("dequeue-without-keys", "%s returned a prefix as the oldest region of the queue together with no key at all: the queue tracked a region that holds no key", o.String())
 			}
 			allowed := h.enqueuedBefore(o.ret)
 			for _, k := range o.outKeys {
@@ -590,7 +650,7 @@ func (h *c19H) checkRestart(o *c19Op) {
 		}
 	}
 	allowed := h.enqueuedBefore(o.call)
-	seen := map[uint8]bool{}
+	seen := map[c19ID]bool{}
 	total := 0
 	for i, e := range o.dump {
 		if len(e.K) == 0 {
@@ -617,6 +677,14 @@ func (h *c19H) checkRestart(o *c19Op) {
 	}
 	if o.dumpSize != total {
 		s.Violate("restart-corrupt", "queue drained after a restart reports Size %d but yields %d keys: %s", o.dumpSize, total, o.String())
+	}
+	if o.dumpCapped {
+		s.Violate("restart-corrupt", "queue drained after a restart does not run empty: %d Dequeue calls returned a region although no more than %d prefixes were ever enqueued: %s", len(o.dump), h.maxRegions, o.String())
+	} else if o.dumpRegs != len(o.dump) {
+		s.Violate("restart-corrupt", "queue drained after a restart reports %d regions but yields %d prefixes: %s", o.dumpRegs, len(o.dump), o.String())
+	}
+	if o.dumpEmpty != (total == 0) {
+		s.Violate("restart-corrupt", "queue drained after a restart reports IsEmpty=%v but yields %d keys (NumRegions %d): %s", o.dumpEmpty, total, o.dumpRegs, o.String())
 	}
 }
 
@@ -655,6 +723,15 @@ func (h *c19H) drive(done func() bool) {
 					persistInDS = true
 				}
 				acts = append(acts, sim.Action{ID: p.ID, Do: func() {
+					if op.Op == "query" && op.DS == h.d && h.liveCorrupt {
+						// the live datastore holds a torn entry (c19_restore.go)
+						if o := h.owner(p); o != nil && o.kind == "drain" {
+							o.corrupt, o.faulted = true, true
+						}
+					}
+					if h.faults && op.Op == "query" && h.readFault(p, op) {
+						return
+					}
 					if h.faults && s.Chance("ds-error", 1, 10) {
 						if o := h.owner(p); o != nil {
 							o.faulted = true
@@ -740,6 +817,7 @@ func (h *c19H) judge(reprov bool) {
 	firstBad := -1
 	var stBefore *c19State
 	sawHavoc := false
+	failedMidway := false // an additive drain gave up after it had loaded something, no Clear since
 	for i, o := range byRet {
 		var info c19Info
 		if o.kind == "persist" {
@@ -750,9 +828,26 @@ func (h *c19H) judge(reprov bool) {
 			if !st.havoc && o.errStr == "" && c19OnlyEmptyPrefix(st.ents) {
 				s.Count("probe_empty_prefix_persisted")
 			}
+			o.stRegions = -1
+			if !st.havoc {
+				o.stRegions = len(st.ents)
+				c19SizeProbes(s, "probe_persist_regions", len(st.ents))
+			}
+		}
+		if o.kind == "restart" && !o.dirty && st.pk && o.errStr == "" {
+			c19SizeProbes(s, "probe_restart_strict_regions", len(st.pers))
 		}
 		if (o.kind == "restart" || o.kind == "drain") && !st.pk {
 			s.Count("probe_drain_after_error")
+		}
+		if o.kind == "drain" && o.errStr != "" && (o.midFired && o.midFail > 1 || o.tornAt > 1) {
+			failedMidway = true
+		}
+		if o.kind == "clear" {
+			failedMidway = false
+		}
+		if o.kind == "deq" && o.outOK && failedMidway {
+			s.Count("probe_dequeue_after_failed_drain")
 		}
 		nPers := len(st.pers)
 		var batch c19BatchInfo
@@ -852,7 +947,7 @@ func (h *c19H) judge(reprov bool) {
 			if r.kind != "restart" || !r.dirty {
 				continue
 			}
-			allowed := map[uint8]bool{}
+			allowed := map[c19ID]bool{}
 			known := true
 			for _, p := range h.ops {
 				if p.kind == "persist" && p.call < r.call {
@@ -902,9 +997,15 @@ func (h *c19H) judge(reprov bool) {
 	switch res {
 	case porcupine.Ok:
 		s.Count("probe_lin_ok")
+		// rules that hold in every state of the queue, known to the model or not
+		// (c19_restore.go): they add something where the model is in "havoc"
+		h.checkHandedOutOnce()
+		h.checkFinalPhase()
 		return
 	case porcupine.Unknown:
 		s.Count("probe_lin_unknown")
+		h.checkHandedOutOnce()
+		h.checkFinalPhase()
 		return
 	}
 	s.Count("probe_lin_illegal")
@@ -1016,13 +1117,13 @@ func c19DrawPrefix(s *sim.Sim, hot []string, tiny bool) string {
 
 // c19DrawKeys picks 1–3 pool keys under prefix (preferring keys on a hot path,
 // from a small candidate set so that keys recur).
-func c19DrawKeys(s *sim.Sim, pool *c19Pool, hot []string, prefix string) (string, []uint8) {
+func c19DrawKeys(s *sim.Sim, pool *c19Pool, hot []string, prefix string) (string, []c19ID) {
 	cands := pool.under(prefix)
 	for len(cands) == 0 { // no pool key there: shorten the prefix
 		prefix = prefix[:len(prefix)-1]
 		cands = pool.under(prefix)
 	}
-	var onHot []uint8
+	var onHot []c19ID
 	for _, k := range cands {
 		for _, hp := range hot {
 			if strings.HasPrefix(pool.bitsOf(k), hp[:4]) {
@@ -1038,7 +1139,7 @@ func c19DrawKeys(s *sim.Sim, pool *c19Pool, hot []string, prefix string) (string
 		cands = cands[:8]
 	}
 	n := s.Range("nkeys", 1, 3)
-	keys := make([]uint8, 0, n)
+	keys := make([]c19ID, 0, n)
 	for i := 0; i < n; i++ {
 		keys = append(keys, cands[s.Draw("key", len(cands))])
 	}
@@ -1064,10 +1165,24 @@ func runC19Provide(s *sim.Sim, withDS, dsErrors bool) {
 		h.d.AtomicBatch = s.Chance("atomic-batch", 1, 3)
 		h.namespaced = s.Chance("namespaced", 1, 2)
 	}
-	s.Summary["cfg"] = fmt.Sprintf("clients=%d ops=%d hot=%v tiny=%v yieldAll=%v ds=%v dsErrors=%v atomicBatch=%v namespaced=%v", nClients, nOps, hot, tiny, yield, withDS, dsErrors, withDS && h.d.AtomicBatch, h.namespaced)
+	// bulk block: many disjoint regions (c19_restore.go); not in a tiny network,
+	// where every region is the whole keyspace
+	var bulk []*c19Op
+	if !tiny {
+		bulk = c19DrawBulk(s, pool, nClients, withDS)
+	}
+	bulkAt := 0
+	if len(bulk) > 0 {
+		bulkAt = s.Draw("bulk-at", nOps+1)
+	}
+	s.MaxSteps += 40 * len(bulk)
+	s.Summary["cfg"] = fmt.Sprintf("clients=%d ops=%d hot=%v tiny=%v yieldAll=%v ds=%v dsErrors=%v atomicBatch=%v namespaced=%v bulk=%d@%d", nClients, nOps, hot, tiny, yield, withDS, dsErrors, withDS && h.d.AtomicBatch, h.namespaced, len(bulk), bulkAt)
 
 	// ---- workload
-	var ever []uint8
+	var ever []c19ID
+	for _, o := range bulk {
+		ever = append(ever, o.keys...)
+	}
 	for i := 0; i < nOps; i++ {
 		o := &c19Op{n: i, client: s.Draw("client", nClients), tag: fmt.Sprintf("o%03d", i)}
 		k := s.Draw("kind", 100)
@@ -1089,7 +1204,7 @@ func runC19Provide(s *sim.Sim, withDS, dsErrors bool) {
 			n := s.Range("nrm", 1, 3)
 			for j := 0; j < n; j++ {
 				if len(ever) == 0 || s.Chance("rm-absent", 1, 6) {
-					o.keys = append(o.keys, uint8(s.Draw("pool-key", 256)))
+					o.keys = append(o.keys, c19ID(s.Draw("pool-key", 256)))
 				} else {
 					o.keys = append(o.keys, ever[s.Draw("ever-key", len(ever))])
 				}
@@ -1114,7 +1229,18 @@ func runC19Provide(s *sim.Sim, withDS, dsErrors bool) {
 			o.parkFork = s.Chance("park-fork", 1, 2)
 		}
 		h.ops = append(h.ops, o)
+	}
+	if len(bulk) > 0 {
+		ops := append([]*c19Op(nil), h.ops[:bulkAt]...)
+		ops = append(ops, bulk...)
+		h.ops = append(ops, h.ops[bulkAt:]...)
+	}
+	for i, o := range h.ops {
+		o.n, o.tag = i, fmt.Sprintf("o%03d", i)
 		h.byTag[o.tag] = o
+		if o.kind == "enq" {
+			h.maxRegions++
+		}
 	}
 	h.startClients(nClients)
 	s.Quiesce()
@@ -1153,7 +1279,7 @@ func runC19Provide(s *sim.Sim, withDS, dsErrors bool) {
 			if !run(&c19Op{kind: "regions"}) || !run(&c19Op{kind: "size"}) {
 				return nil, nil
 			}
-			for i := 0; i < 80; i++ {
+			for i := 0; i < 80+h.maxRegions; i++ {
 				o := &c19Op{kind: "deq"}
 				if !run(o) || !o.outOK {
 					break
